@@ -364,6 +364,35 @@ func genC05(tier, out string, sum *Summary) {
 			emit("PAvg", c, "avg(@)", arr)
 		}
 	}
+	// a number that no decimal holds never turns into an infinity or a NaN that travels on as a value, and never
+	// makes two different numbers equal
+	{
+		bigN := map[string]any{"n": json.Number("1e7000"), "m": json.Number("-1e7000"), "p": json.Number("2e7000"), "q": json.Number("3e8000"), "one": json.Number("1")}
+		for _, e := range []string{"abs(n)", "abs(m)", "ceil(n)", "floor(m)", "- n", "- m", "+ n", "max([one, n])", "min([m, one])", "max([n])", "sort([n, one])", "sum([n])", "avg([n, m])", "n + one", "n * one", "n - n", "n / n", "m // one", "n % one",
+			"to_number(n)", "[n][0]", "not_null(n)", "abs(`1e7000`)", "- `1e7000`", "max(`[1, 1e7000]`)", "max_by([{k: n}, {k: one}], &k).k", "sort_by([{k: n}, {k: m}], &k)[0].k", "n == p", "n == q", "contains([n], q)", "[n] == [p]", "n != p", "`1e7000` == `2e7000`", "n < p", "n > one", "n >= n"} {
+			o := search(e, bigN)
+			sum.count("beyond-range/" + o.Kind)
+			if o.Kind == "panic" {
+				sum.direct("nan-result", e, bigN, describe(o))
+			}
+			if o.Kind != "val" {
+				continue
+			}
+			if d, ok := toDec(o.Value); ok && (d.IsNaN() || d.IsInf(0)) {
+				if _, isText := o.Value.(json.Number); !isText {
+					sum.direct("nan-result", e, bigN, "the result is an infinity or NaN value: "+describe(o))
+				}
+			}
+			if strings.Contains(e, "==") || strings.HasPrefix(e, "contains") {
+				if o.Value == true {
+					sum.direct("nan-result", e, bigN, "two different numbers beyond the range compare equal")
+				}
+			}
+			if strings.Contains(e, "!=") && o.Value == false {
+				sum.direct("nan-result", e, bigN, "two different numbers beyond the range compare equal")
+			}
+		}
+	}
 	// division by zero and overflow are errors, never infinities
 	for _, e := range []string{"`1` / `0`", "`0` / `0`", "`-1` / `0.0`", "`1` // `0`", "`1` % `0`", "`9e6144` * `10`", "`-9e6144` * `10`", "`9e6144` + `9e6144`", "`-9e6144` - `9e6144`", "`9e6144` * `-10`", "- `9e6144` * `10`", "`9e3100` * `-9e3100`", "`-1` / `0`", "`-1` // `0`", "`-1` % `0`", "`0` // `0`", "`0` % `0`", "`9e6144` / `1e-100`", "`-9e6144` / `1e-100`", "sum(`[9e6144, 9e6144]`)", "sum(`[-9e6144, -9e6144]`)", "avg(`[9e6144, 9e6144, 9e6144]`) * `3`", "abs(`-9e6144`) * `10`", "`1e-6176` / `1e100`"} {
 		o := search(e, nil)
